@@ -17,7 +17,10 @@ if "dump" in sys.argv:
     print(j['blueprint']['wires'])
     for e in r[2]["edges"]: print(e)
 ideal = r[2] if "ideal" in sys.argv else None
-defs, expr, meta = S.case_for(0, decls, j, ideal=ideal)
+ents = src.get("entities")
+if ents:
+    ents = [dict(e, enable=to_tuple(e["enable"]) if e.get("enable") is not None else None) for e in ents]
+defs, expr, meta = S.case_for(0, decls, j, ideal=ideal, entities=ents)
 print(meta)
 print(S.debug_case(0, defs, meta["entities"])[:8000])
 print(S.search_failing_input(0, defs, meta["entities"], meta["n_inputs"], random.Random(1), S.thresholds(decls)))
